@@ -30,7 +30,13 @@ type RedactableString string
 // RedactableString. This returns an unsafe string where all safe and
 // unsafe bits are mixed together.
 func (s RedactableString) StripMarkers() string {
-	return ReStripMarkers.ReplaceAllString(string(s), "")
+	r := ReStripMarkers.ReplaceAllString(string(s), "")
+	// If the input is not valid UTF-8, removing a marker can bring
+	// together bytes that form a new marker. Ensure none remains.
+	for ReStripMarkers.MatchString(r) {
+		r = ReStripMarkers.ReplaceAllString(r, "")
+	}
+	return r
 }
 
 // Redact replaces all occurrences of unsafe substrings by the
@@ -62,7 +68,12 @@ type RedactableBytes []byte
 // RedactableBytes. This returns an unsafe string where all safe and
 // unsafe bits are mixed together.
 func (s RedactableBytes) StripMarkers() []byte {
-	return ReStripMarkers.ReplaceAll([]byte(s), nil)
+	r := ReStripMarkers.ReplaceAll([]byte(s), nil)
+	// See the comment in RedactableString.StripMarkers.
+	for ReStripMarkers.Match(r) {
+		r = ReStripMarkers.ReplaceAll(r, nil)
+	}
+	return r
 }
 
 // Redact replaces all occurrences of unsafe substrings by the
